@@ -466,13 +466,12 @@ func encodeKey(v Val) string {
 	case Sc:
 		return x.T
 	case Ar:
-		// packed base 256, first element most significant
-		t := "0"
+		// uninterpreted injective tuple encoding key!N (inverse functions axiomatised in the preamble)
+		var es []string
 		for i := int64(0); i < x.N; i++ {
-			e := vSelect(x.Arr, tInt(i)).(Sc).T
-			t = tAdd(tMul("256", t), e)
+			es = append(es, vSelect(x.Arr, tInt(i)).(Sc).T)
 		}
-		return t
+		return app(fmt.Sprintf("key!%d", x.N), es...)
 	}
 	panic(fmt.Sprintf("encodeKey: %T", v))
 }
